@@ -312,6 +312,7 @@ RULE = (
     "(the domain is non-uniform or there are >=2 distinct filters and >=2 distinct signals), i.e. it distinguishes index order and "
     "x= from dx=; for the linearity/step/integral sub-checks the analogous rule stated in their labels. distinct = distinct "
     "SHA-1 of the canonical JSON case per sub-check."
+    " Arguments are also handed over as nested lists and (when whole numbers) as int64 arrays; steps may be Python ints; domain units span 1e-9..1e3."
 )
 
 PROP = Prop(
